@@ -33,7 +33,7 @@
    harness/c07.go.  The tie between [skel_step] and the real re-parse is checked
    there too (skeleton-step-differs). *)
 From Coq Require Import ZArith NArith List Bool String.
-From EvyV Require Import Base FmtAst Format FormatProofs FormatNlProofs FormatShapeProofs FormatSpecProofs.
+From EvyV Require Import Base FmtAst Format FormatProofs FormatNlProofs FormatShapeProofs FormatSpecProofs FormatDepthProofs.
 Import ListNotations.
 Open Scope N_scope.
 
@@ -103,6 +103,35 @@ Theorem C07_format_idempotent_before_fix_refuted : exists ks : list skind,
 Proof. exists [KStmt; KStmt; KComment; KFunc]. vm_compute. discriminate. Qed.
 Print Assumptions C07_format_idempotent_before_fix_refuted.
 
+(* exact indentation: a non-blank statement at block depth d ([at_depth], defined in
+   FormatDepthProofs.v from the tree: 0 at top level, +1 per enclosing if/else/while/for/func/on
+   body) is written at the beginning of a line behind exactly 4*d spaces, and its own text
+   starts with a non-blank character *)
+Theorem C07_statement_at_exact_depth : forall (fixed : fixes) (p : fprog) (d : nat) (s : fstmt),
+  at_depth p d s -> is_blank s = false -> wf_stmt s = true ->
+  exists pre post,
+    format fixed p = pre ++ spaces (4 * d) ++ render (fmt_stmt fixed d s) ++ [10] ++ post
+    /\ (pre = [] \/ exists q, pre = q ++ [10])
+    /\ exists c r, render (fmt_stmt fixed d s) = c :: r /\ is_space c = false.
+Proof. exact stmt_at_exact_depth. Qed.
+Print Assumptions C07_statement_at_exact_depth.
+
+(* the output skeleton of one pass never has two consecutive blank lines *)
+Theorem C07_output_skeleton_has_no_adjacent_blank_lines : forall ks : list skind,
+  no_adj_empty (skel_step (fix_nl current_fixes) ks) = true.
+Proof. exact skel_step_no_adj_empty. Qed.
+Print Assumptions C07_output_skeleton_has_no_adjacent_blank_lines.
+
+(* idempotence of the formatter model at top level, as far as it can be said without a parser
+   model: ANY tree whose top-level statement kinds are the skeleton of a formatter output is
+   written statement by statement — the second pass inserts no blank line and squeezes none
+   (the harness checks that the kinds of the real re-parse are that skeleton) *)
+Theorem C07_second_pass_is_plain : forall (p : fprog) (ks : list skind),
+  map stmt_kind p = skel_step (fix_nl current_fixes) ks ->
+  fmt_prog current_fixes p = flat_map (plain_line current_fixes) p.
+Proof. intros p ks H. exact (second_pass_is_plain current_fixes p ks eq_refl H). Qed.
+Print Assumptions C07_second_pass_is_plain.
+
 (* `evy fmt -c` *)
 Theorem C07_check_accepts_iff_formatted : forall (parse : str -> option fprog) (fixed : fixes) (t : str),
   fmt_check parse fixed t = true <-> exists p, parse t = Some p /\ t = format fixed p.
@@ -153,3 +182,17 @@ Example C07_close_bracket_after_comment :
   format no_fixes p = s_ "if true" ++ k_nl ++ s_ "    x := [1 // c" ++ k_nl ++ s_ "]" ++ k_nl ++ s_ "end" ++ k_nl /\
   format all_fixes p = s_ "if true" ++ k_nl ++ s_ "    x := [1 // c" ++ k_nl ++ s_ "    ]" ++ k_nl ++ s_ "end" ++ k_nl.
 Proof. vm_compute. repeat split; reflexivity. Qed.
+
+(* a statement three blocks deep *)
+Example C07_depth_example :
+  let inner := SCall (s_ "print") [FNum 0 (s_ "1")] [] in
+  let p := [SFunc (s_ "f") None [] None []
+              [SWhile (FBool true) [] [SEmpty []; SIf (CBlock (FBool true) [] [inner]) [] None []] []] []] in
+  at_depth p 3 inner.
+Proof.
+  right. eexists. split; [left; reflexivity|].
+  eapply nested_step; [left; reflexivity | left; reflexivity|].
+  eapply nested_step; [left; reflexivity | right; left; reflexivity|].
+  eapply nested_direct; [left; reflexivity | left; reflexivity].
+Qed.
+
